@@ -300,6 +300,12 @@ Definition m_vswrite_lens (w : wlist) (fil uil nelt vtb : Z) : list Z * Z :=
     let p := write_plan hdf_size nelt vtb in (map (fun c => hdf_size * c) (p_chunks p), p_vtb p)
   else ([hdf_size * nelt], if vswrite_abd_grow_cond vtb (hdf_size * nelt) =? 0 then vtb else hdf_size * nelt).
 
+(** the same argument checks as [m_vswrite] in front of the length-only plan *)
+Definition m_vswrite_lens_checked (w : wlist) (fil uil nelt vtb : Z) : option (list Z * Z) :=
+  if (nelt <=? 0) || match wl_fields w with [] => true | _ => false end
+     || negb ((uil =? NO_INTERLACE) || (uil =? FULL_INTERLACE)) then None
+  else Some (m_vswrite_lens w fil uil nelt vtb).
+
 (* ---- VSread -------------------------------------------------------- *)
 
 (** place the bytes a Hread delivered at [base] *)
@@ -454,6 +460,10 @@ Definition m_vsread_lens (w : wlist) (fil uil nelt vtb : Z) : list Z * Z :=
   if negb (vsread_ec_cond (Z.of_nat (length (wl_fields w))) uil fil =? 0) then
     let p := read_plan hsize nelt vtb in (map (fun c => hsize * c) (p_chunks p), p_vtb p)
   else ([nelt * hsize], if vtb <? nelt * hsize then nelt * hsize else vtb).
+Definition m_vsread_lens_checked (w : wlist) (fil uil nelt vtb : Z) : option (list Z * Z) :=
+  if (nelt <=? 0) || match wl_fields w with [] => true | _ => false end
+     || negb ((uil =? NO_INTERLACE) || (uil =? FULL_INTERLACE)) then None
+  else Some (m_vsread_lens w fil uil nelt vtb).
 
 (* ------------------------------------------------------------------ *)
 (** * vpackvs / vunpackvs: the Vdata header record (DFTAG_VH) *)
